@@ -5,6 +5,7 @@ CONSTANTS
   MaxP = 3
   MinLens = {1, 2}
   OccRates = {0, 2}
+  AllSentinelOrders = TRUE
   T = 1
 SPECIFICATION Spec
 INVARIANTS StrandSymmetry ExtensionLemma FwdInv BwdInv Final MemsFastLemma
